@@ -104,13 +104,19 @@ impl ToTokens for Expansion {
                         inc = 0;
                     }
                     let ret = {
-                        let inc = Literal::usize_unsuffixed(inc);
+                        // The offset is added in the representation type, where a literal
+                        // like `139` does not exist for `i8` although `-128 + 139` does:
+                        // cast it (wrapping) and add it wrapping. A discriminant that is not
+                        // representable is rejected by the compiler on the enum itself.
+                        let discriminant = if inc == 0 {
+                            quote! { (#last_discriminant) }
+                        } else {
+                            let inc = Literal::usize_unsuffixed(inc);
+                            quote! { <#repr_ty>::wrapping_add(#last_discriminant, #inc as #repr_ty) }
+                        };
                         fields.is_empty().then_some((
                             format_ident!("__DISCRIMINANT_{}", ident.unraw()),
-                            (
-                                quote! { (#last_discriminant) + #inc },
-                                quote! { #ident #fields },
-                            ),
+                            (discriminant, quote! { #ident #fields }),
                         ))
                     };
                     inc += 1;
